@@ -443,7 +443,19 @@ static void scen_invalid(uint64_t* rng) {
     PROBE("fcntl(F_SETFL,O_NONBLOCK)", fcntl(fd, F_SETFL, O_NONBLOCK), real_fcntl(fd, F_SETFL, O_NONBLOCK));
     PROBE("ioctl(FIONBIO)", ioctl(fd, FIONBIO, &one), -1L + 0 * (errno = EBADF));
     PROBE("close", close(fd), real_close(fd));
+    // the number must have stayed invalid throughout (another thread opening a file would reuse a just-closed number)
+    vp_errno_clear();
+    if (!(real_fcntl(fd, F_GETFD, 0) < 0 && vp_errno() == EBADF)) {
+      vp_count("io_invalid_probe_discarded_number_reused", 1);
+      continue;
+    }
     int k;
+    for (k = 0; k < n; ++k)
+      if (r[k].want >= 0) break;  // the plain call succeeded: the number was valid at that moment
+    if (k < n) {
+      vp_count("io_invalid_probe_discarded_number_reused", 1);
+      continue;
+    }
     for (k = 0; k < n; ++k)
       if (!(r[k].got < 0 && r[k].gerr == EBADF))
         vp_violation("C08", "io:invalid-fd-result", "trial %d: %s on invalid descriptor %d returned %ld (errno %d); the plain call returns %ld (errno %d)", trial, r[k].name, fd,
